@@ -755,6 +755,9 @@ class Engine(object):
             if isinstance(o, RecordObj) and z3.is_string_value(x.z):
                 k = x.z.as_string()
                 return o.fields[k][0] if k in o.fields else z3.BoolVal(False)
+            if isinstance(o, RecordObj):
+                # symbolic key against a record with constant keys: it is one of the present keys
+                return z3.Or(*[z3.And(p_, x.z == z3.StringVal(k_)) for k_, (p_, _v) in o.fields.items()]) if o.fields else z3.BoolVal(False)
         if isinstance(container, VPy) and isinstance(container.obj, (frozenset, set, tuple)) and isinstance(x, VOpaque):
             f_ = z3.Function("in:%s" % sorted(map(repr, container.obj)), Opaque, B)
             self.assumptions.add("membership of an uninterpreted value in a constant set is a function of the value")
@@ -909,6 +912,16 @@ class Engine(object):
                         if not self.feasible(s):
                             continue
                     outs.append((s, v))
+                    continue
+                if isinstance(o, RecordObj) and isinstance(idx, VStr) and o.fields and all(isinstance(v_, VInt) for _p, v_ in o.fields.values()):
+                    # counter record read at a symbolic key: KeyError unless it is a present key
+                    s.assume(z3.Or(*[z3.And(p_, idx.z == z3.StringVal(k_)) for k_, (p_, _v) in o.fields.items()]))
+                    if not self.feasible(s):
+                        continue
+                    val = z3.IntVal(0)
+                    for k_, (_p, v_) in o.fields.items():
+                        val = z3.If(idx.z == z3.StringVal(k_), v_.z, val)
+                    outs.append((s, VInt(val)))
                     continue
                 if isinstance(o, ListObj) and o.kind == "seq" and isinstance(idx, VInt):
                     n = o.len
@@ -1358,6 +1371,8 @@ class Engine(object):
                 r = self.opaque_call("len", [a], st, "int")
                 st.assume(r.z >= 0)
                 return [(st, r)]
+        if name == "sum" and len(args) == 1 and isinstance(args[0], VTuple) and all(isinstance(i, VInt) for i in args[0].items):
+            return [(st, VInt(z3.Sum(*[i.z for i in args[0].items]) if args[0].items else z3.IntVal(0)))]
         if name == "abs" and len(args) == 1 and isinstance(args[0], VInt):
             return [(st, VInt(z3.If(args[0].z < 0, -args[0].z, args[0].z)))]
         if name == "int" and len(args) == 1 and isinstance(args[0], (VBool, VInt)):
@@ -1541,6 +1556,8 @@ class Engine(object):
                     st.heap[recv.rid] = ListObj(o.len - 1, "opaque", {})
                     return [(st, VOpaque(note="pop"))]
             if isinstance(o, RecordObj):
+                if m == "values" and not args and all(z3.is_true(p_) for p_, _v in o.fields.values()):
+                    return [(st, VTuple([v_ for _p, v_ in o.fields.values()]))]
                 if m == "get" and args and isinstance(args[0], VStr) and z3.is_string_value(args[0].z):
                     k = args[0].z.as_string()
                     dflt = args[1] if len(args) > 1 else VNone()
@@ -2187,6 +2204,19 @@ class Engine(object):
                         s.heap[base.rid] = n
                         outs.append(s)
                         continue
+                    if isinstance(o, RecordObj) and isinstance(idx, VStr) and isinstance(v, VInt) and o.fields and all(isinstance(v_, VInt) for _p, v_ in o.fields.values()):
+                        # counter record written at a symbolic key: exact when the key is known to be one of the record's
+                        # keys on this path (a store that could add a new key is outside the record view)
+                        probe = s.fork()
+                        probe.assume(z3.Not(z3.Or(*[idx.z == z3.StringVal(k_) for k_ in o.fields])))
+                        if not self.feasible(probe):
+                            n = RecordObj(o.fields)
+                            for k_, (p_, v_) in o.fields.items():
+                                hit = idx.z == z3.StringVal(k_)
+                                n.fields[k_] = (z3.simplify(z3.Or(p_, hit)), VInt(z3.If(hit, v.z, v_.z)))
+                            s.heap[base.rid] = n
+                            outs.append(s)
+                            continue
                     if isinstance(o, ListObj) and o.kind == "seq" and isinstance(idx, VInt) and hasattr(v, "z") and v.z.sort() == o.elem:
                         n_ = o.len
                         i = z3.If(idx.z < 0, n_ + idx.z, idx.z)
